@@ -174,6 +174,7 @@ class GenInfo:
         self.used_contracts = set()
         self.used_ghosts = set()
         self.opaque = []           # functions left unverified because the verifier could not read them
+        self.underivable = []
         self.lost = []             # (contract key, props) whose function no longer exists
         self.lost_ghosts = []
 
@@ -257,6 +258,17 @@ def render_file(path, module, moddir, ctx):
         body = src[f.body_start:f.body_end] if f.has_body else None
         sigtext = src[f.sig_start:f.sig_end]
         opaque = key in ctx.get('opaque', ())
+        if not opaque and f.has_body:
+            # a body the derivation rules cannot translate is treated like one the verifier cannot read
+            try:
+                if f.owner.startswith('KeyboardLayout for ') and f.name == 'map_keycode':
+                    derive_layout_copy(src, f)
+                elif f.owner == 'Modifiers' and f.name.startswith('is_') and not names:
+                    derive_pred_copy(src, f)
+            except ExtractError as e:
+                opaque = True
+                info.underivable.append('%s: %s' % (key, e))
+                ctx['opaque'].add(key)
         if opaque and f.has_body:
             # the verifier could not read this function (construct outside its dialect): leave it unverified (external_body)
             # with an uninterpreted denotation, so that the rest of the crate can still be decided; every property that
